@@ -215,7 +215,8 @@ pub fn run(tier: Tier) -> Report {
     let step = tier.pick(23, 3);
     let mut scs = vec![];
     for (i, it) in items.iter().enumerate() {
-        if i % step != 0 {
+        // the structured chains (else-if with differently shaped branches) are always included
+        if i % step != 0 && it.family != "stmt@else-chains" {
             continue;
         }
         let pr = print_program(&it.program);
